@@ -72,10 +72,11 @@ def explore(ctx, max_cues):
             continue
         except AnalysisError as e:
             raise AnalysisError(f"SRTReader.read cannot be folded on {doc[:40]!r}: {e}")
-        if not isinstance(r, Stub) or not isinstance(r.attrs.get("_captions"), dict) or len(r.attrs["_captions"]) != 1:
+        from .foldutil import captions_by_language
+        by_lang = captions_by_language(r, F, "SRTReader.read")
+        if len(by_lang) != 1:
             raise AnalysisError("SRTReader.read: folded result is not a one-language CaptionSet")
-        lst = list(r.attrs["_captions"].values())[0]
-        lst = lst.attrs["__list__"] if isinstance(lst, Stub) else lst
+        lst = list(by_lang.values())[0]
         got = []
         for c in lst:
             rows, cur = [], ""
